@@ -29,9 +29,9 @@ func init() {
 			"connection is read by prefetch under a read deadline) with unlimited data ready at the client. The scripted client connection stamps the entry of the first underlying read (t0) and the return of " +
 			"every read (tau_i, cumulative bytes C_i). oracle (one-sided, sound under any load): with t0 = span entry + latency (no token can be taken earlier), C_i <= burst + rate*(tau_i - t0) + 1 per connection; for the total limiter the same on the merged " +
 			"stream of all connections; t0 - (span entry) >= latency; bytes the sink read are exactly the prefix of the client's stream that was pulled. non-trivial = >=3 reads observed; " +
-			"distinct = hash(all run parameters). storm rounds: eight connections with a full burst ready enter a full total limiter together; one burst (+ rate x T) may be read.",
+			"distinct = hash(all run parameters). layouts: throttle and consumer in one route / throttle alone in a non-terminal route / throttle in a subroute (the stream is read after the handler returned) / a matcher in front of the throttle (prefetched bytes must not be lost). storm rounds: eight connections with a full burst ready enter a full total limiter together; one burst (+ rate x T) may be read.",
 		Assumptions: []string{
-			"no matcher precedes the handler, so every underlying read is a throttled read",
+			"unless a run says otherwise no matcher precedes the handler, so every underlying read is a throttled read; in pre-match runs the reads made for matching (before the handler chain is entered) are left out of the bound",
 			"observer clock is read after each read returns, so delays can only hide violations",
 		},
 		MinEvals: 20,
@@ -69,6 +69,14 @@ type Run struct {
 	UDP      bool `json:"udp,omitempty"`
 	Datagram int  `json:"datagram,omitempty"`
 
+	// Layout: "" = throttle and the consumer in one route; "own-route" = the throttle handler is the only handler of a
+	// (non-terminal) route and the consumer sits in the next route; "subroute" = the throttle handler sits in a subroute
+	// and the consumer follows the subroute. In both, the stream is read after the throttle handler's Handle returned.
+	Layout string `json:"layout,omitempty"`
+	// PreMatch > 0: a matcher that needs this many bytes decides the route before the throttle handler runs, so the
+	// handler starts with prefetched, not yet consumed bytes (they are not throttled; they must not be lost)
+	PreMatch int `json:"pre_match,omitempty"`
+
 	Matcher        int `json:"matcher,omitempty"`
 	MatchTimeoutMs int `json:"match_timeout_ms,omitempty"`
 }
@@ -90,6 +98,11 @@ var specials = []*Run{
 	// total burst left to its default (rate+1) below an explicit, larger per-connection burst
 	{Rate: 50000, Burst: 4000, TotalRate: 1000, TotalBurst: 0, BufSize: 32 << 10, Conns: 3, DurationMs: 900},
 	{Rate: 0, Burst: 0, TotalRate: 2048, TotalBurst: 0, BufSize: 32 << 10, Conns: 2, DurationMs: 700},
+	// the stream is read after the throttle handler's Handle has returned
+	{Rate: 2000, Burst: 200, BufSize: 512, Conns: 2, DurationMs: 900, Layout: "own-route"},
+	{Rate: 0, TotalRate: 4000, TotalBurst: 300, BufSize: 512, Conns: 3, DurationMs: 900, Layout: "subroute"},
+	// prefetched bytes in front of the throttle handler
+	{Rate: 20000, Burst: 500, BufSize: 512, Conns: 2, DurationMs: 700, PreMatch: 2000},
 	// UDP associations, datagrams larger than the burst, reader buffers larger and smaller than a datagram
 	{Rate: 2000, Burst: 200, BufSize: 32 << 10, Conns: 2, DurationMs: 900, UDP: true, Datagram: 1800},
 	{Rate: 0, TotalRate: 4000, TotalBurst: 300, BufSize: 512, Conns: 3, DurationMs: 900, UDP: true, Datagram: 1200},
@@ -148,7 +161,15 @@ func genRun(seed int64, i int) *Run {
 		}
 		return ru
 	}
-	if r.Intn(5) == 0 {
+	switch r.Intn(6) {
+	case 0:
+		ru.Layout = "own-route"
+	case 1:
+		ru.Layout = "subroute"
+	case 2:
+		ru.PreMatch = []int{1, 100, 2000, 5000}[r.Intn(4)]
+	}
+	if r.Intn(5) == 0 && ru.Layout == "" && ru.PreMatch == 0 {
 		ru.Matcher = []int{100, 3000, 8000}[r.Intn(3)]
 		ru.MatchTimeoutMs = []int{200, 600, 3000}[r.Intn(3)]
 	}
@@ -183,8 +204,9 @@ func run(c *fw.Ctx) {
 }
 
 type sample struct {
-	t time.Duration
-	n int
+	t  time.Duration
+	n  int
+	id string // connection (merged list)
 }
 
 func execute(c *fw.Ctx, ru *Run) {
@@ -215,8 +237,22 @@ func execute(c *fw.Ctx, ru *Run) {
 			"match":  []any{map[string]any{"verif_m1": map[string]any{"id": "after-throttle", "need": ru.Matcher, "at": 0, "eq": 256, "neg": true, "pattern": "peek"}}},
 			"handle": []any{last}}}}
 	}
-	routes := drive.J([]any{map[string]any{"handle": []any{
-		map[string]any{"handler": "verif_span", "name": "span"}, th, last}}})
+	span := map[string]any{"handler": "verif_span", "name": "span"}
+	var routeList []any
+	switch ru.Layout {
+	case "own-route":
+		routeList = []any{map[string]any{"handle": []any{span, th}}, map[string]any{"handle": []any{last}}}
+	case "subroute":
+		routeList = []any{map[string]any{"handle": []any{span,
+			map[string]any{"handler": "subroute", "routes": []any{map[string]any{"handle": []any{th}}}}, last}}}
+	default:
+		rt := map[string]any{"handle": []any{span, th, last}}
+		if ru.PreMatch > 0 {
+			rt["match"] = []any{map[string]any{"verif_m1": map[string]any{"id": "pre", "need": ru.PreMatch, "at": 0, "eq": 256, "neg": true, "pattern": "peek"}}}
+		}
+		routeList = []any{rt}
+	}
+	routes := drive.J(routeList)
 	app, err := drive.StartApp(routes, "20s")
 	if err != nil {
 		c.Violation("C17 config rejected", err.Error(), ru)
@@ -258,10 +294,10 @@ func execute(c *fw.Ctx, ru *Run) {
 				return
 			}
 			cs.mu.Lock()
-			cs.samples = append(cs.samples, sample{t, n})
+			cs.samples = append(cs.samples, sample{t: t, n: n})
 			cs.mu.Unlock()
 			allMu.Lock()
-			all = append(all, sample{t, n})
+			all = append(all, sample{t: t, n: n, id: cs.id})
 			allMu.Unlock()
 		}
 		if k < ru.Trickle {
@@ -299,6 +335,7 @@ func execute(c *fw.Ctx, ru *Run) {
 	}
 	reads := 0
 	var firstT0 time.Duration = -1
+	spanAt := map[string]time.Duration{} // PreMatch runs: when each connection's handler chain was entered
 	for _, cs := range conns {
 		t0ns := cs.server.FirstReadT0.Load()
 		cs.mu.Lock()
@@ -314,7 +351,18 @@ func execute(c *fw.Ctx, ru *Run) {
 		t0 := firstRead
 		for _, e := range cs.rec.Events() {
 			if e.Kind == "enter" && e.Who == "span" {
-				if gap := firstRead - e.T; gap < time.Duration(ru.LatencyMs)*time.Millisecond {
+				if ru.PreMatch > 0 {
+					// what was read before the handler chain was entered was read for matching, not through the throttle:
+					// the bound is about the reads from then on (the sink gets the prefetched bytes from the buffer)
+					var later []sample
+					for _, sm := range samples {
+						if sm.t >= e.T {
+							later = append(later, sm)
+						}
+					}
+					samples = later
+					spanAt[cs.id] = e.T
+				} else if gap := firstRead - e.T; gap < time.Duration(ru.LatencyMs)*time.Millisecond {
 					report("latency-not-honoured", fmt.Sprintf("the first read from the client started %v after the handler chain was entered, configured latency is %d ms", gap, ru.LatencyMs), nil)
 				}
 				t0 = e.T + time.Duration(ru.LatencyMs)*time.Millisecond
@@ -342,7 +390,7 @@ func execute(c *fw.Ctx, ru *Run) {
 		pulled := int(cs.server.BytesRead.Load())
 		if len(got) > len(cs.stream) || !bytes.Equal(got, cs.stream[:len(got)]) {
 			report("stream-not-intact", "the sink read bytes that are not a prefix of the client's stream: "+oracle.Diff(got, cs.stream[:min(len(got), len(cs.stream))]), nil)
-		} else if len(got) != pulled && !(ru.Matcher > 0 && len(got) == 0) { // (matching that fails drops what it had prefetched)
+		} else if len(got) != pulled && !((ru.Matcher > 0 || ru.PreMatch > 0) && len(got) == 0) { // (matching that fails drops what it had prefetched)
 			report("stream-lost-bytes", fmt.Sprintf("%d bytes were pulled from the client but the sink read %d", pulled, len(got)), nil)
 		}
 		hmods.Untrack(cs.id)
@@ -355,6 +403,9 @@ func execute(c *fw.Ctx, ru *Run) {
 		sort.Slice(merged, func(i, j int) bool { return merged[i].t < merged[j].t })
 		cum := 0
 		for _, s := range merged {
+			if at, ok := spanAt[s.id]; ru.PreMatch > 0 && (!ok || s.t < at) {
+				continue // read for matching, before the throttle handler ran
+			}
 			cum += s.n
 			allowed := tburst + ru.TotalRate*(s.t-firstT0).Seconds() + 1
 			if float64(cum) > allowed {
